@@ -166,19 +166,26 @@ def run(ctx):
 
     # ---------------- clause 4: 64-bit fields across the wire --------------------------------------------------------------
     ctx.rule('C20.4-wide-fields', 'a field written from an i64/u64 comes back from the wire as Integer or BigInt; a reader that uses as_integer() sees only the Integer variant', floor=1)
-    AI = P.B('erltf::term::OwnedTerm::as_integer')
-    accepts_big = False
-    if AI is not None:
-        for bb in sorted(AI.live_blocks()):
-            sd = AI.switch_on_discr(bb)
-            if sd and 'OwnedTerm' in sd[1]:
-                vs = [v['n'] for v in ctx.F.adts['erltf::term::OwnedTerm']['variants']]
+    OT = 'erltf::term::OwnedTerm'
+
+    def accepted_variants(path):
+        """variants of OwnedTerm for which the accessor `path` yields Some(..) / Ok(..)"""
+        AB = P.B(path)
+        if AB is None:
+            return None
+        vs = [v['n'] for v in ctx.F.adts[OT]['variants']]
+        for bb in sorted(AB.live_blocks()):
+            sd = AB.switch_on_discr(bb)
+            if sd and OT in sd[1]:
                 ok_vs = set()
                 for v, b in sd[2]:
-                    reg = AI.reachable(b)
-                    if any(st['k'] == '=' and st['rv']['k'] == 'agg' and st['rv'].get('var') == 'Some' for x in reg for st in AI.blocks[x]['s']):
+                    reg = AB.reachable(b)
+                    if any(st['k'] == '=' and st['rv']['k'] == 'agg' and st['rv'].get('var') in ('Some', 'Ok') and (0 in AB.derived_locals([st['pl']['l']]) or st['pl']['l'] == 0)
+                           for x in reg for st in AB.blocks[x]['s']) or any(
+                            AB.blocks[x]['t']['k'] == 'call' and AB.blocks[x]['t']['dst']['l'] == 0 and not (callee_of(AB.blocks[x]['t'])[0] or '').endswith('from_residual') for x in reg):
                         ok_vs.add(vs[v])
-                accepts_big = 'BigInt' in ok_vs
+                return ok_vs
+        return None
     for name, path in WRAPPERS.items():
         ty = CR + path
         adt = ctx.F.adts.get(ty)
@@ -188,12 +195,28 @@ def run(ctx):
         wide = [f['n'] for f in adt['variants'][0]['fields'] if f['ty'] in ('i64', 'u64')]
         if not wide:
             continue
-        uses_ai = any(is_call_to(t, 'erltf::term::OwnedTerm::as_integer') for bb, t in fr.calls())
-        if uses_ai and not accepts_big:
-            ctx.bad('C20.4-wide-fields', name, 'fields %s are 64-bit: values outside the i32 range are encoded as big integers, but from_term reads them with as_integer(), which only sees the Integer variant, so e.g. %s with a bound of 5_000_000_000 does not survive encode + decode' % (wide, name),
-                    ctx.where(fr), key='CLOSURE:%s:wide-field-as_integer' % ty)
+        # the accessors whose results end up in the wide fields: calls (in from_term) that take an &OwnedTerm and return an integer option/result
+        accs = set()
+        for bb, t in fr.calls():
+            aty = t.get('aty') or []
+            rty = fr.local_ty(t['dst']['l'])
+            if aty and 'OwnedTerm' in aty[0] and ('Option<i64>' in rty or 'Option<u64>' in rty or 'Result<i64' in rty or 'Result<u64' in rty):
+                accs |= {n for n in callee_names(t) if n in ctx.F.bodies}
+        if not accs:
+            ctx.undecided('C20.4-wide-fields', name, 'no integer accessor recognised in from_term for the 64-bit fields %s' % wide)
+            continue
+        narrow = []
+        for a in sorted(accs):
+            av = accepted_variants(a)
+            if av is None or 'Integer' not in av:
+                continue
+            if 'BigInt' not in av:
+                narrow.append(a)
+        if narrow:
+            ctx.bad('C20.4-wide-fields', name, 'fields %s are 64-bit: values outside the i32 range are encoded as big integers, but from_term reads them with %s, which only sees the Integer variant, so e.g. %s with a bound of 5_000_000_000 does not survive encode + decode'
+                    % (wide, ', '.join(x.rsplit('::', 1)[1] + '()' for x in narrow), name), ctx.where(fr), key='CLOSURE:%s:wide-field-as_integer' % ty)
         else:
-            ctx.ok('C20.4-wide-fields', name, 'wide fields %s read through an accessor that accepts big integers' % wide)
+            ctx.ok('C20.4-wide-fields', name, 'wide fields %s are read through %s, which accepts the BigInt variant too' % (wide, ', '.join(x.rsplit('::', 1)[1] for x in sorted(accs))), ctx.where(fr))
 
     # ---------------- clause 5: proplist helpers agree ----------------------------------------------------------------------
     ctx.rule('C20.5-proplist-siblings', 'normalize_proplist, proplist_to_map, the proplist iterator and the serde proplist access treat the element shapes alike: 2-tuple -> key/value, bare atom -> {atom, true}, anything else skipped', floor=3)
